@@ -196,12 +196,14 @@ func (g *Gen) doAlloc(st *BState, in *ssa.Alloc) {
 		}
 	case *types.Array:
 		// backing array in the elem region
+		g.assume(st, fmt.Sprintf("(= (rtype %s) 0)", n))
 		r := g.elemRegion(u.Elem())
 		cur := g.heapGet(st.heap, r)
 		if sortOf(u.Elem()) != "Opaque" {
 			g.assume(st, fmt.Sprintf("(= (select %s %s) %s)", cur, n, g.constArray("Int", sortOf(u.Elem()), zeroOf(u.Elem()))))
 		}
 	default:
+		g.assume(st, fmt.Sprintf("(= (rtype %s) 0)", n))
 		r := g.cellRegion(t)
 		if sortOf(t) != "Opaque" {
 			g.assume(st, fmt.Sprintf("(= (select %s %s) %s)", g.heapGet(st.heap, r), n, zeroOf(t)))
@@ -661,6 +663,8 @@ func (g *Gen) doConvert(st *BState, in *ssa.Convert) {
 	case isString(from) && isByteSlice(to):
 		// fresh array holding the bytes of the string
 		arr := g.freshRef(st, g.valName(in)+"_arr")
+	g.assume(st, fmt.Sprintf("(= (rtype %s) 0)", arr)) // not a struct object
+		g.assume(st, fmt.Sprintf("(= (rtype %s) 0)", arr)) // not a struct object
 		r := g.elemRegion(types.Typ[types.Uint8])
 		cont := g.fresh("cont", "(Array Int Int)")
 		g.assert(fmt.Sprintf("(forall ((i Int)) (! (=> (and (<= 0 i) (< i (strlen %s))) (= (select %s i) (strat %s i))) :pattern ((select %s i))))", x, cont, x, cont))
@@ -794,6 +798,7 @@ func (g *Gen) doMakeSlice(st *BState, in *ssa.MakeSlice) {
 	g.assume(st, fmt.Sprintf("(<= %s 72057594037927936)", cp)) // A-len
 	et := in.Type().Underlying().(*types.Slice).Elem()
 	arr := g.freshRef(st, g.valName(in)+"_arr")
+	g.assume(st, fmt.Sprintf("(= (rtype %s) 0)", arr)) // not a struct object
 	r := g.elemRegion(et)
 	if sortOf(et) != "Opaque" {
 		g.assume(st, fmt.Sprintf("(= (select %s %s) %s)", g.heapGet(st.heap, r), arr, g.constArray("Int", sortOf(et), zeroOf(et))))
@@ -806,6 +811,7 @@ func (g *Gen) doMakeMap(st *BState, in *ssa.MakeMap) {
 	mt := in.Type().Underlying().(*types.Map)
 	n := g.valName(in)
 	g.freshRef(st, n)
+	g.assume(st, fmt.Sprintf("(= (rtype %s) 0)", n)) // not a struct object
 	g.vals[in] = n
 	g.allocs[in] = true
 	dom, _, ln := g.mapRegions(mt)
